@@ -161,6 +161,68 @@ pub fn judge(s: &Session, st: &mut Stats) -> Result<(bool, bool), Viol> {
     judge_text(&defs, Some(&render_expr(&s.closed)), Some(&render_expr(&s.open)), &s.args, st)
 }
 
+/// definitions that build closures, a closed application and an open one (free variables x y z)
+pub fn gen_closure_session(c: &mut Choices) -> (Vec<String>, String, String) {
+    let ops = ["+", "-", "*", "logxor", "logand"];
+    let k = c.range(2, 3); // captures
+    let params: Vec<String> = (0..k).map(|i| format!("P{i}")).collect();
+    let weights: Vec<i64> = (0..=k).map(|i| [100, 10, 1, 7][i % 4] * (1 + c.range(0, 2) as i64)).collect();
+    // body mixes every capture and the lambda's own argument with distinct weights so that any
+    // mix-up of positions changes the value
+    let term = |name: &str, w: i64| format!("(* {w} {name})");
+    let mut body = term("Y", weights[k]);
+    for (i, p) in params.iter().enumerate() {
+        let op = ops[c.pick(2)];
+        body = format!("({op} {} {body})", term(p, weights[i]));
+    }
+    let caps = params.join(" ");
+    let mut defs = vec![];
+    let shape = c.pick(4);
+    let (fname, call_shape): (&str, usize) = match shape {
+        0 => {
+            defs.push(format!("(defun H ({}) (lambda ((& {caps}) Y) {body}))", params.join(" ")));
+            ("H", 0)
+        }
+        1 => {
+            // lambda returning a lambda: the inner one captures the outer one's argument too
+            let inner = format!("(lambda ((& {caps} Y) Z) (+ {body} (* 1000 Z)))");
+            defs.push(format!("(defun H ({}) (lambda ((& {caps}) Y) {inner}))", params.join(" ")));
+            ("H", 1)
+        }
+        2 => {
+            // captures taken out of an (@ ALL (..)) parameter
+            defs.push(format!("(defun H (@ ALL ({})) (lambda ((& {caps} ALL) Y) (c {body} ALL)))", params.join(" ")));
+            ("H", 0)
+        }
+        _ => {
+            defs.push(format!("(defun-inline HI ({}) (lambda ((& {caps}) Y) {body}))", params.join(" ")));
+            ("HI", 0)
+        }
+    };
+    let consts: Vec<String> = (0..k).map(|_| format!("{}", c.range(1, 9))).collect();
+    let free = ["x", "y", "z"];
+    // open: some arguments constant, some free; at least one of each when possible
+    let mut open_args: Vec<String> = (0..k).map(|i| if c.chance(128) { consts[i].clone() } else { free[i % 3].to_string() }).collect();
+    if open_args.iter().all(|a| free.contains(&a.as_str())) {
+        open_args[0] = consts[0].clone();
+    }
+    if !open_args.iter().any(|a| free.contains(&a.as_str())) {
+        let j = k - 1;
+        open_args[j] = free[j % 3].to_string();
+    }
+    let y_closed = c.range(1, 9);
+    let y_open = if c.chance(128) { format!("{}", c.range(1, 9)) } else { "z".to_string() };
+    let (closed, open) = if call_shape == 1 {
+        (
+            format!("(a (a ({fname} {}) (list {y_closed})) (list {}))", consts.join(" "), c.range(1, 9)),
+            format!("(a (a ({fname} {}) (list {y_open})) (list {}))", open_args.join(" "), c.range(1, 9)),
+        )
+    } else {
+        (format!("(a ({fname} {}) (list {y_closed}))", consts.join(" ")), format!("(a ({fname} {}) (list {y_open}))", open_args.join(" ")))
+    };
+    (defs, closed, open)
+}
+
 pub fn judge_text(defs_in: &[String], closed: Option<&str>, open: Option<&str>, args: &[V], st: &mut Stats) -> Result<(bool, bool), Viol> {
     let mut repl = new_repl();
     let defs: Vec<String> = defs_in.to_vec();
@@ -282,7 +344,7 @@ impl Prop for C16Prop {
         "C16"
     }
     fn rule(&self) -> &'static str {
-        "A generated definition sequence (0..4 of defun incl. recursive templates, defun-inline, defconstant, defmacro templates; each entered through Repl::process_line before use), then a closed expression and an open expression over the free variables x y z from the C01 expression generator (let/let*/assign, lambdas, function values, macros, &rest calls, operators, literals). Oracle: closed e reduced to a constant v => (mod () defs e) compiled under cl21 runs to a value equal to v whenever it returns; open e with residual r that re-reads to itself => (mod (x y z) defs r) agrees with (mod (x y z) defs e) on every generated argument tuple on which the latter returns (a constant residual likewise). REPL errors (depth limit, unsupported forms) => skip. Non-trivial: the expression involves >= 1 entered definition and the REPL reduced it (result differs from input). Distinct by hash of the session text."
+        "A generated definition sequence (0..4 of defun incl. recursive templates, defun-inline, defconstant, defmacro templates; each entered through Repl::process_line before use), then a closed expression and an open expression over the free variables x y z from the C01 expression generator (let/let*/assign, lambdas, function values, macros, &rest calls, operators, literals). Oracle: closed e reduced to a constant v => (mod () defs e) compiled under cl21 runs to a value equal to v whenever it returns; open e with residual r that re-reads to itself => (mod (x y z) defs r) agrees with (mod (x y z) defs e) on every generated argument tuple on which the latter returns (a constant residual likewise). REPL errors (depth limit, unsupported forms) => skip. Second section (closures): template sessions in which a defun / defun-inline returns a lambda with 2..3 captures (plain, lambda returning a lambda that also captures the outer argument, captures taken from an (@ ALL (..)) parameter), every captured position entering the result with its own weight, applied to all-constant arguments (closed) and to mixes of constants and free variables (open). Non-trivial: the expression involves >= 1 entered definition and the REPL reduced it (result differs from input). Distinct by hash of the session text."
     }
     fn sections(&self, tier: Tier) -> Vec<Section> {
         vec![Section {
@@ -293,12 +355,46 @@ impl Prop for C16Prop {
             },
             exhaustive: false,
             what: "definition sequences + closed and open expressions through Repl::process_line vs compiled programs",
+        }, Section {
+            name: "closures",
+            kind: SectionKind::Random {
+                cases: tier.pick(400, 10_000),
+                maxlen: 80,
+            },
+            exhaustive: false,
+            what: "functions returning lambdas with 2..3 captures (also lambdas returning lambdas, captures through (@ name pattern) and rest parameters), applied to mixes of constants and free variables",
         }]
     }
     fn run(&self, _sec: &str, input: &Input, tier: Tier, st: &mut Stats) -> Verdict {
         let Input::Bytes(bytes) = input else {
             return Verdict::Skip("index input not used");
         };
+        if _sec == "closures" {
+            let mut c = Choices::new(bytes);
+            let (defs, closed, open) = gen_closure_session(&mut c);
+            st.label("random_case");
+            st.label("closure-session");
+            let args = vec![list(vec![int(4), int(19), int(7)]), list(vec![int(-7), int(300), int(0)]), list(vec![int(1), int(2), int(3)])];
+            return match judge_text(&defs, Some(&closed), Some(&open), &args, st) {
+                Err(v) => Verdict::Violation(Box::new(v)),
+                Ok((cc, oo)) => {
+                    if cc {
+                        st.label("closed-checked");
+                    }
+                    if oo {
+                        st.label("open-checked");
+                    }
+                    if cc || oo {
+                        st.label("checked");
+                        st.nontrivial(fnv(format!("{defs:?}{closed}{open}").as_bytes()));
+                        st.sample(|| json!({"definitions": defs, "closed": closed, "open": open}));
+                        Verdict::Pass
+                    } else {
+                        Verdict::Skip("neither expression could be compared (REPL error / not reduced / program fails)")
+                    }
+                }
+            };
+        }
         let s = decode(bytes, tier);
         st.label("random_case");
         if s.collision {
@@ -380,6 +476,9 @@ impl Prop for C16Prop {
             }
             _ => None,
         }
+    }
+    fn sut_crash_is_violation(&self) -> bool {
+        false
     }
     fn case_timeout(&self) -> (u64, bool) {
         (40, false)
